@@ -36,7 +36,7 @@ func (f *Factory) Connect(o *transport.Options) (transport.Transport, error) {
 }
 
 func (f *Factory) Listen(o *transport.Options) (transport.Acceptor, error) {
-	a := &Acceptor{conns: make(chan *Transport, 64), closed: make(chan struct{})}
+	a := &Acceptor{conns: make(chan *Transport, 64), closed: make(chan struct{}), broken: make(chan struct{})}
 	f.mu.Lock()
 	f.accs[o.Address.Host] = a
 	f.mu.Unlock()
@@ -70,9 +70,30 @@ func (f *Factory) Transports() []*Transport {
 }
 
 type Acceptor struct {
-	conns  chan *Transport
-	closed chan struct{}
-	once   sync.Once
+	conns    chan *Transport
+	closed   chan struct{}
+	once     sync.Once
+	broken   chan struct{}
+	brokeOne sync.Once
+}
+
+// ErrAcceptFailed is what Accept returns after Break: a failure of the listening socket itself
+// (too many open files, the interface going away), not caused by Close.
+var ErrAcceptFailed = errors.New("mock: accept failed")
+
+// Break makes the pending and all later Accept calls fail although nobody closed the acceptor.
+func (a *Acceptor) Break() { a.brokeOne.Do(func() { close(a.broken) }) }
+
+// Break breaks the acceptor listening on host, if there is one.
+func (f *Factory) Break(host string) bool {
+	f.mu.Lock()
+	a := f.accs[host]
+	f.mu.Unlock()
+	if a == nil {
+		return false
+	}
+	a.Break()
+	return true
 }
 
 var ErrAcceptorClosed = errors.New("mock: acceptor closed")
@@ -86,6 +107,8 @@ func (a *Acceptor) Accept() (transport.Transport, error) {
 	select {
 	case <-a.closed:
 		return nil, ErrAcceptorClosed
+	case <-a.broken:
+		return nil, ErrAcceptFailed
 	case t := <-a.conns:
 		return t, nil
 	}
